@@ -920,6 +920,11 @@ func (in *Interp) eval(fr *frame, sc *scope, e *N) Value {
 		return in.newLibGen(e.I, fr.gen == nil)
 	case Iter:
 		return in.mkit(e.I)
+	case Prom:
+		if fr.gen != nil {
+			return float64(e.I)
+		}
+		return in.deferred(e.I)
 	}
 	unsupported("expression kind %s", e.K)
 	return nil
